@@ -648,5 +648,12 @@ HAshutdown(void)
     atom_free_list = NULL;
     memset(atom_group_list, 0, sizeof(atom_group_t *) * MAXGROUP);
 
+    /* Atoms of groups that were still in use must not be found in the lookup
+     * cache once the groups are initialized again and IDs are re-issued */
+    for (unsigned u = 0; u < ATOM_CACHE_SIZE; u++) {
+        atom_id_cache[u]  = -1;
+        atom_obj_cache[u] = NULL;
+    }
+
     return SUCCEED;
 } /* end HAshutdown() */
